@@ -953,7 +953,12 @@ def oracle(case, ans):
         if diag != "unexplained":
             break
         try:
-            if expected(case, parents, children, texts, flags=afl, pats=apats) == res:
+            acase = case
+            if tag == "wo-child-list-uses-p1":
+                # F07: the code searches the children for parentspec[1], a plain one-character str -- whatever kind
+                # (str / compiled, with or without flags) the second list element was
+                acase = dict(case, kinds=kinds_of(case)[0] + "s")
+            if expected(acase, parents, children, texts, flags=afl, pats=apats) == res:
                 diag = tag
         except re.error:
             pass
